@@ -1,10 +1,10 @@
 /-
   Step-level theorems about single operations of the stepped Core model for the properties C06 (placeholder timeout:
   `phTimeout` / `phTimeoutOf`, and what the release of the last placeholder does afterwards) and C10 (life cycle: `ask`,
-  `relAppT`, `askAppT`, `stateTimeout`), and the refutation witnesses for the C10 clause about asks (`NoPendInv`): two
-  histories from the empty partition in which a node removal rolls back an in-flight swap of an application that has
-  just become Completing (`exOpsC10`: Completing with an outstanding ask, then Completed with a pending total that is
-  not zero; `exOpsC10b`: … then Completed with the outstanding ask still listed).
+  `relAppT`, `askAppT`, `stateTimeout`), and two histories from the empty partition in which a node removal rolls back
+  an in-flight swap of an application that has just become Completing (`exOpsC10`, `exOpsC10b`: the application runs
+  again with the ask outstanding; before the repair 20ee082 of `Application.DeallocateAsk` they were the refutation
+  witnesses of the C10 clause about asks, `NoPendInv`: Completing, then Completed, with an outstanding ask).
   Helper lemmas: namespace `Yk.LifeE`; main theorems: `Yk`; histories: `Yk.Example`.
 -/
 import YkProofs.Core2Life
@@ -655,8 +655,11 @@ theorem stateTimeout_completes (s : Core) (app : String) (a : CApp) (hw : CoreWF
       (by rfl) hfind, ?_⟩
   exact ⟨by rw [← hid]; exact setState_id a _, rfl, LifeE.setState_state a _, setState_pending a _, setState_allocated a _, rfl⟩
 
-/-! ## C. the refutation witness for the C10 clause about asks
-  (KNOWN_FINDINGS C10.completing-with-pending-ask+swap-rolled-back-by-node-removal) -/
+/-! ## C. histories in which a node removal rolls back an in-flight swap
+  (before the repair 20ee082 of `Application.DeallocateAsk` these were the refutation witnesses of the C10 clause about
+  asks — the former KNOWN_FINDINGS entry C10.completing-with-pending-ask+swap-rolled-back-by-node-removal: the
+  application stayed Completing with the ask outstanding again and then became Completed.  Now `deallocAppRun` moves it
+  back to Running.) -/
 
 namespace Example
 open Yk.Res
@@ -665,7 +668,7 @@ open Yk.Res
     asks for the real allocation `r1` (cpu 2); the scheduler starts the swap `r1` for `p1` on the same node (in flight:
     `r1` counts as allocated, the pending total is empty).  Then the node is removed: the real allocation `rA` goes first —
     nothing is pending, the real total is zero: the application becomes Completing —, then the swap is rolled back:
-    `r1` is outstanding again.  The state timer then completes the application. -/
+    `r1` is outstanding again and the application runs again.  The state timer then finds nothing to do. -/
 def exOpsC10 : List Op :=
   [op1, op2, op3, op4,
    .ask "app" "rA" [("cpu", 1)] false "" "", .schedAlloc "app" "rA" "n1",
@@ -699,32 +702,22 @@ theorem noPendInv_ex0 : NoPendInv ex0 := ⟨fun _ ha => (by cases ha), fun _ ha 
 theorem exC10_before : ∃ a, (run ex0 (exOpsC10.take 8)).findApp "app" = some a ∧ a.state = "Running" ∧ a.pending = [] ∧
     ∃ i ∈ a.items, i.release ≠ none := by decide +kernel
 
-/-- after the node removal the live application is Completing and has an outstanding ask -/
-theorem exC10_after_removal : ∃ a ∈ (run ex0 (exOpsC10.take 9)).apps, a.live = true ∧ a.state = "Completing" ∧
-    ∃ i ∈ a.items, i.outstanding = true := by decide +kernel
+/-- after the node removal the application is live and Running again — its state log shows the Completing it passed
+    through inside the removal —, the ask `r1` is outstanding and counted as pending -/
+theorem exC10_after_removal : ∃ a, (run ex0 (exOpsC10.take 9)).findApp "app" = some a ∧ a.state = "Running" ∧
+    a.log = ["Accepted", "Running", "Completing", "Running"] ∧ a.pending = [("cpu", 2)] ∧
+    ∃ i ∈ a.items, i.key = "r1" ∧ i.outstanding = true := by decide +kernel
 
-/-- … i.e. the clause `completingNoPending` fails -/
-theorem exC10_not_noPend : ¬ NoPendInv (run ex0 (exOpsC10.take 9)) := by
-  intro h
-  obtain ⟨a, ha, hl, hst, i, hi, ho⟩ := exC10_after_removal
-  rw [h.completingNoPending a ha hl hst i hi] at ho
-  cases ho
+/-- the state timer armed on the way (and cleared by leaving Completing) changes nothing: still live, Running, the ask
+    outstanding -/
+theorem exC10_end : ∃ a, (run ex0 exOpsC10).findApp "app" = some a ∧ a.state = "Running" ∧ a.pending = [("cpu", 2)] ∧
+    ∃ i ∈ a.items, i.key = "r1" ∧ i.outstanding = true := by decide +kernel
 
-/-- after `stateTimeout` the application is not live and Completed; `timeoutStateTimer` (as `moveTerminatedApp`) drops
-    the asks from the item list of the record that stays behind, so the outstanding ask shows in its pending total
-    only: Completed with a pending total of cpu 2 -/
-theorem exC10_end : (run ex0 exOpsC10).findApp "app" = none ∧
-    ∃ a ∈ (run ex0 exOpsC10).apps, a.id = "app" ∧ a.live = false ∧ a.state = "Completed" ∧ a.pending = [("cpu", 2)] ∧
-      a.items = [] := by decide +kernel
-
-/-- … hence the item-based clause `completedNoAsk` is NOT violated at the end of this history -/
-theorem exC10_end_noPend : NoPendInv (run ex0 exOpsC10) := ⟨by decide +kernel, by decide +kernel⟩
-
-/-- A variant in which the Completed record does list the outstanding ask: the application holds a second placeholder
-    `p2` on another node `n2`.  After the node removal (Completing, `r1` outstanding again, `p2` still bound) the state
-    timer only asks the shim to release `p2` (and is cleared); the shim's confirmation (TIMEOUT release of `p2`, the last
-    placeholder of a Completing application whose timer is not armed) fires completeApplication: Completed, not live,
-    and — a TIMEOUT confirmation drops no ask — `r1` is still listed as outstanding. -/
+/-- A variant with a second placeholder `p2` on another node `n2` (before the repair: after the node removal
+    Completing with `r1` outstanding and `p2` still bound; the state timer asked the shim to release `p2`, and the shim's
+    TIMEOUT confirmation — the last placeholder of a Completing application whose timer is not armed — completed the
+    application with `r1` still listed as outstanding).  Now the application is Running after the node removal, the state
+    timer does nothing, and the release of `p2` leaves it Running: pending is not zero. -/
 def exOpsC10b : List Op :=
   [op1, .nodeCreate "n2" [("cpu", 10)] true, op2,
    .ask "app" "p1" [("cpu", 2)] true "tg" "", .ask "app" "p2" [("cpu", 2)] true "tg" "",
@@ -747,27 +740,14 @@ theorem exOpsC10b_run : (run? ex0 exOpsC10b).isSome = true := by decide +kernel
 theorem exC10b_before : ∃ a, (run ex0 (exOpsC10b.take 11)).findApp "app" = some a ∧ a.state = "Running" ∧ a.pending = [] ∧
     ∃ i ∈ a.items, i.release ≠ none := by decide +kernel
 
-/-- after the node removal: live, Completing, an outstanding ask -/
-theorem exC10b_after_removal : ∃ a ∈ (run ex0 (exOpsC10b.take 12)).apps, a.live = true ∧ a.state = "Completing" ∧
-    ∃ i ∈ a.items, i.outstanding = true := by decide +kernel
+/-- after the node removal: live, Running again (through Completing), the ask `r1` outstanding, `p2` still held -/
+theorem exC10b_after_removal : ∃ a, (run ex0 (exOpsC10b.take 12)).findApp "app" = some a ∧ a.state = "Running" ∧
+    a.log = ["Accepted", "Running", "Completing", "Running"] ∧ a.pending = [("cpu", 2)] ∧ a.allocatedPh = [("cpu", 2)] ∧
+    ∃ i ∈ a.items, i.key = "r1" ∧ i.outstanding = true := by decide +kernel
 
-theorem exC10b_not_noPend_removal : ¬ NoPendInv (run ex0 (exOpsC10b.take 12)) := by
-  intro h
-  obtain ⟨a, ha, hl, hst, i, hi, ho⟩ := exC10b_after_removal
-  rw [h.completingNoPending a ha hl hst i hi] at ho
-  cases ho
-
-/-- at the end: not live, Completed, and the record lists an outstanding ask -/
-theorem exC10b_end : (run ex0 exOpsC10b).findApp "app" = none ∧
-    ∃ a ∈ (run ex0 exOpsC10b).apps, a.id = "app" ∧ a.live = false ∧ a.state = "Completed" ∧
-      ∃ i ∈ a.items, i.outstanding = true := by decide +kernel
-
-/-- … i.e. the clause `completedNoAsk` fails -/
-theorem exC10b_not_noPend : ¬ NoPendInv (run ex0 exOpsC10b) := by
-  intro h
-  obtain ⟨_, a, ha, _, _, hst, i, hi, ho⟩ := exC10b_end
-  rw [h.completedNoAsk a ha hst i hi] at ho
-  cases ho
+/-- at the end: still live, Running — neither Completing nor Completed —, no placeholder left, the ask outstanding -/
+theorem exC10b_end : ∃ a, (run ex0 exOpsC10b).findApp "app" = some a ∧ a.state = "Running" ∧ a.pending = [("cpu", 2)] ∧
+    a.allocatedPh = [] ∧ ∃ i ∈ a.items, i.key = "r1" ∧ i.outstanding = true := by decide +kernel
 
 end Example
 end Yk
